@@ -400,8 +400,20 @@ func runPass(a []string) string {
 		}
 		wg.Wait()
 	} else {
+		// a sequential scenario stops after two exchanges in a row that did not complete (each costs its 20 s timeout; the
+		// answer is a mismatch already): a stalled connection must not turn a check into a half-hour run
+		fails := 0
 		for i, r := range reqs {
+			if fails >= 2 {
+				res[i] = "skipped-after-two-failed-exchanges"
+				continue
+			}
 			do(i, r)
+			if strings.HasPrefix(res[i], "roundtrip-error:") {
+				fails++
+			} else {
+				fails = 0
+			}
 		}
 	}
 	var out []string
